@@ -107,7 +107,9 @@ def check_case(case):
     shells = SHELLS[tier]
     if case.get("sweep"):
         m = min(cell[:3])
-        shells = [(0.0, 2.6 / m), (1.1 / m, 2.1 / m)]
+        # a ladder of cut-offs: a traversal that leaves a row too early loses reflections erratically in sintlmax
+        shells = [(0.0, 2.6 / m), (1.1 / m, 2.1 / m), (0.0, 1.63 / m), (0.0, 1.9 / m), (0.7 / m, 2.33 / m), (0.0, 2.95 / m), (0.0, 2.51 / m), (1.3 / m, 3.3 / m),
+                  (1.9 / m, 3.63 / m), (2.4 / m, 3.98 / m)]
         if max(cell[:3]) > 100:  # long axis: a thin shell that contains (0,0,l) with l ~ 130 (or ~ 300) and its neighbours
             M = max(cell[:3])
             shells = [(64.2 / M, 68.7 / M)] if M < 500 else [(150.2 / M, 152.1 / M)]
